@@ -201,6 +201,43 @@ def task_exotic(a, env):
     return r
 
 
+def sweep_case(which, n):
+    """anchors again after n calls on pairwise distinct messages (lib.sweep); expected = the RFC model"""
+    from .. import lib as _lib
+    Hm = importlib.import_module("py_ecc.bls.hash")
+    H2 = importlib.import_module("py_ecc.bls.hash_to_curve")
+    dst = b"QUUX-V01-CS02-sweep"
+    if which == "xmd":
+        call = lambda m_: _call(lambda: bytes(Hm.expand_message_xmd(m_, dst, 48, hashlib.sha256)))  # noqa: E731
+        expect = lambda m_: ("ok", h2c.expand_message_xmd(m_, dst, 48, "sha256"))  # noqa: E731
+    else:
+        def call(m_):
+            o = _call(H2.hash_to_field_FQ2, m_, 2, dst, hashlib.sha256)
+            return ("ok", tuple(tuple(int(c) for c in e.coeffs) for e in o[1])) if o[0] == "ok" else o
+        expect = lambda m_: ("ok", h2c.hash_to_field(m_, 2, dst, 2, "sha256"))  # noqa: E731
+    anchors = [b"", b"abc", b"anchor-2", bytes(64)]
+    distinct = (b"distinct-%d" % j for j in range(n))
+    return _lib.sweep(call, anchors, distinct, n, expect)
+
+
+def task_sweep(a, env):
+    r = R("anchors-again-after-n-distinct-messages")
+    for which in ("xmd", "hash_to_field_FQ2"):
+        bad = sweep_case(which, a["n"])
+        r.ev += a["n"] + 4 * 24
+        r.dk.add(which)
+        if bad:
+            r.viol("C15:%s:stale-after-many-distinct" % which, ME + ":replay_sweep", {"which": which, "n": bad[0]}, bad[2], bad[3],
+                   note="anchor %d after %d distinct messages" % (bad[1], bad[0]))
+    r.sample({"n": a["n"], "history": "f(a0..a3); f(d1); f(a0..a3); f(d2); f(a0..a3); f(d3); ..."})
+    return r
+
+
+def replay_sweep(a):
+    bad = sweep_case(a["which"], a["n"])
+    return None if not bad else {"after": bad[0], "anchor": bad[1], "expected": bad[2], "observed": bad[3]}
+
+
 def replay_exotic(a):
     for lbl, exp, got in exotic_case(a):
         if lbl == a["label"] and exp != got:
@@ -299,6 +336,7 @@ def run(ctx):
         tasks.append(("xmd_pairs", {"h1s": [h1], "h2s": hashes}))
     tasks.append(("xmd_reuse", {"hs": ["sha256", "sha512", "sha3_256"]}))
     tasks.append(("exotic", {}))
+    tasks.append(("sweep", {"n": 1200 if q else 20000}))
     # very long messages at power-of-two sizes (chunked / streamed hashing boundaries)
     for hn in ("sha256", "sha512"):
         for lm in ([1 << 20, (1 << 22) - 1, 1 << 22, (1 << 22) + 1, 1 << 23] + ([] if q else [1 << 24, 3 << 22])):
